@@ -1,5 +1,5 @@
 from collections.abc import Mapping
-from typing import Any
+from typing import Any, TypeVar
 
 from attrs import NOTHING
 from typing_extensions import Self
@@ -21,7 +21,7 @@ def deep_copy_with(t, mapping: Mapping[str, Any], self_is=NOTHING):
                 if a is Self and self_is is not NOTHING
                 else (
                     mapping[a.__name__]
-                    if hasattr(a, "__name__") and a.__name__ in mapping
+                    if isinstance(a, TypeVar) and a.__name__ in mapping
                     else (deep_copy_with(a, mapping, self_is) if is_generic(a) else a)
                 )
             )
